@@ -772,6 +772,17 @@ def run_config(cfg, tier, seed):
                         res.interesting(('ct', names, ck, eol, body[:10]))
                         for sig, text, rep in check_strong(names, kinds, eol, 'space', block, expected, body, None):
                             res.violation(sig, text, rep)
+        if cfg['part'] == 0:
+            # a header block far longer than any buffer size one might think of (900 fields of 78 bytes: 70 KB)
+            names, kinds = ('X-A',) * 900, ('long',) * 900
+            for eol in EOLS:
+                block, expected = build_block(names, kinds, eol, 'space')
+                for body in (b'x\r\n', b'\r\n\nleading blank lines, bare\nLF and lone\rCR\r\n', b''):
+                    res.evaluations += 1
+                    res.count('huge_header_cases')
+                    res.interesting(('huge-header', eol, body[:10]))
+                    for sig, text, rep in check_strong(names, kinds, eol, 'space', block, expected, body, None):
+                        res.violation(sig, text[:600], rep)
         res.sample({'family': 'CT', 'content_types': sorted(b2s(v) for v in CT_KINDS.values()), 'bodies': len(CT_BODIES)})
     elif fam == 'R7':
         for text in (u'plain ascii\r\n', u'caf\xe9\r\n', u'\xe9' * 40 + u'\r\nsecond \xe9\r\n'):
